@@ -2762,3 +2762,307 @@ func (c *Check) wordReadersHaveOneByteOrder() {
 		c.ok("C14-R16", "byte-order:none", "", "legacy_profile.go has no shift-or word reader", "nothing to check")
 	}
 }
+
+// ---------------------------------------------------------------- round K
+
+// scoresComparedByMagnitude (C05-R13): "fall outside the top N under the active sort order":
+// the score orders of Nodes.Sort (cum, entropy) rank by magnitude.  A score looked up in the
+// map[*Node]int64 of the sort is used only through an absolute-value function: compared with
+// its sign, entries with a large negative cum (a diff profile) are cut before small positive
+// ones.
+func (c *Check) scoresComparedByMagnitude() {
+	p := c.P
+	f := c.anchorFn("C05-R13", "internal/graph", "Nodes.Sort")
+	if f == nil {
+		return
+	}
+	n := 0
+	var scope []*ssa.Function
+	seenFn := map[*ssa.Function]bool{}
+	for _, h := range withHelpers(f, 1) {
+		forEachFuncAndAnon(h, func(g *ssa.Function) {
+			if !seenFn[g] {
+				seenFn[g] = true
+				scope = append(scope, g)
+			}
+		})
+	}
+	for _, g := range scope {
+		for _, b := range g.Blocks {
+			for _, ins := range b.Instrs {
+				lk, ok := ins.(*ssa.Lookup)
+				if !ok || lk.CommaOk {
+					continue
+				}
+				mt, ok := lk.X.Type().Underlying().(*types.Map)
+				if !ok || typeShort(mt.Key()) != "*graph.Node" {
+					continue
+				}
+				if bt, ok := mt.Elem().Underlying().(*types.Basic); !ok || bt.Kind() != types.Int64 {
+					continue
+				}
+				n++
+				key := fmt.Sprintf("score-magnitude:%s#%d", fnName(g), n)
+				bad := ""
+				for _, r := range *lk.Referrers() {
+					switch x := r.(type) {
+					case *ssa.DebugRef:
+					case *ssa.Call:
+						if !absLike(x.Call.StaticCallee()) {
+							bad = "passed to " + calleeShort(x)
+						}
+					case *ssa.BinOp:
+						switch x.Op {
+						case token.LSS, token.GTR, token.LEQ, token.GEQ, token.NEQ, token.EQL:
+							if _, isK := x.Y.(*ssa.Const); !isK {
+								bad = "compared as is (" + x.Op.String() + ")"
+							}
+						}
+					}
+				}
+				if bad == "" {
+					c.ok("C05-R13", key, p.relFile(lk.Pos()), "a sort score is compared by magnitude", "the looked-up score is only used through an absolute-value function")
+				} else {
+					c.bad("C05-R13", key, p.relFile(lk.Pos()), fnName(g)+" uses a node's score with its sign ("+bad+"): in a diff profile an entry with a large negative cum sorts after small positive ones and is the first to be cut by nodecount, although it is in the top N by |cum|")
+				}
+			}
+		}
+	}
+	if n == 0 {
+		c.ok("C05-R13", "score-magnitude:none", p.relFile(f.Pos()), "Nodes.Sort looks no score up in a map", "scores are handled otherwise")
+	}
+}
+
+// cutoffFromRawTotal (C05-R14): the node and edge cutoffs are compared with raw cum values and
+// edge weights, so they are fractions of the raw total (Nodes.Sum).  The factor multiplied
+// with NodeFraction/EdgeFraction is not the result of a function that applies the mean divisor
+// (FlatValue/CumValue): with -mean the displayed total is smaller by the divisor and entries
+// below the cutoff survive.
+func (c *Check) cutoffFromRawTotal() {
+	p := c.P
+	usesDisplayed := func(h *ssa.Function) bool {
+		if h == nil || len(h.Blocks) == 0 {
+			return false
+		}
+		for _, g := range withHelpers(h, 1) {
+			for _, b := range g.Blocks {
+				for _, ins := range b.Instrs {
+					if call, ok := ins.(*ssa.Call); ok && call.Call.StaticCallee() != nil {
+						switch call.Call.StaticCallee().Name() {
+						case "FlatValue", "CumValue", "WeightValue":
+							return true
+						}
+					}
+				}
+			}
+		}
+		return false
+	}
+	n := 0
+	forAllPkgFuncs(p, "internal/report", func(f *ssa.Function) {
+		for _, b := range f.Blocks {
+			for _, ins := range b.Instrs {
+				mul, ok := ins.(*ssa.BinOp)
+				if !ok || mul.Op != token.MUL {
+					continue
+				}
+				var other ssa.Value
+				frac := ""
+				for _, pr := range [][2]ssa.Value{{mul.X, mul.Y}, {mul.Y, mul.X}} {
+					if ld, ok := pr[0].(*ssa.UnOp); ok && ld.Op == token.MUL {
+						if fa, ok := ld.X.(*ssa.FieldAddr); ok {
+							if T, F := fieldOf(fa.X.Type(), fa.Field); T == "report.Options" && (F == "NodeFraction" || F == "EdgeFraction") {
+								frac, other = F, pr[1]
+							}
+						}
+					}
+				}
+				if frac == "" {
+					continue
+				}
+				for i := 0; i < 4; i++ {
+					if cv, ok := other.(*ssa.Convert); ok {
+						other = cv.X
+					}
+				}
+				var src *ssa.Call
+				switch x := other.(type) {
+				case *ssa.Call:
+					src = x
+				case *ssa.Extract:
+					src, _ = x.Tuple.(*ssa.Call)
+				}
+				if src == nil || src.Call.StaticCallee() == nil {
+					continue
+				}
+				n++
+				key := fmt.Sprintf("cutoff-raw:%s:%s", fnName(f), frac)
+				if usesDisplayed(src.Call.StaticCallee()) {
+					c.bad("C05-R14", key, p.relFile(mul.Pos()), fnName(f)+" takes "+frac+" of "+fnName(src.Call.StaticCallee())+", which sums displayed values (divided by the mean divisor), and compares the result with raw cum values: with -mean the cutoff is too small by the divisor and entries whose |cum| is below nodefraction × total stay in the report")
+				} else {
+					c.ok("C05-R14", key, p.relFile(mul.Pos()), "the cutoff is a fraction of the raw total", fnName(src.Call.StaticCallee())+" does not apply the mean divisor")
+				}
+			}
+		}
+	})
+	if n == 0 {
+		c.ok("C05-R14", "cutoff-raw:none", "", "no cutoff is computed from the result of a summing call", "nothing to check")
+	}
+}
+
+// lineValuesNotCarried (C10-R10): what an interactive line sets depends on that line only.
+// The name and value handed to configure() are computed inside the iteration of the read
+// loop: neither is a value carried round the loop (a variable hoisted out of it keeps the
+// value of an earlier assignment, so a bare `call_tree` after `call_tree=false` sets false).
+func (c *Check) lineValuesNotCarried() {
+	p := c.P
+	f := c.anchorFn("C10-R10", "internal/driver", "interactive")
+	cfgFn := p.Func("internal/driver", "configure")
+	if f == nil || cfgFn == nil {
+		return
+	}
+	n := 0
+	for _, g := range withHelpers(f, 1) {
+		for _, b := range g.Blocks {
+			for _, ins := range b.Instrs {
+				call, ok := ins.(*ssa.Call)
+				if !ok || call.Call.StaticCallee() != cfgFn {
+					continue
+				}
+				hdr := loopHeaderAround(b)
+				if hdr == nil {
+					continue
+				}
+				n++
+				key := fmt.Sprintf("line-local:%s#%d", fnName(g), n)
+				carried := ""
+				for ai, a := range call.Call.Args {
+					seen := map[ssa.Value]bool{}
+					var walk func(v ssa.Value, d int)
+					walk = func(v ssa.Value, d int) {
+						if seen[v] || d > 12 || carried != "" {
+							return
+						}
+						seen[v] = true
+						switch x := v.(type) {
+						case *ssa.Phi:
+							for _, pr := range x.Block().Preds {
+								if x.Block().Dominates(pr) && naturalLoop(x.Block())[b] {
+									carried = fmt.Sprintf("argument %d", ai+1)
+									return
+								}
+							}
+							for _, e := range x.Edges {
+								walk(e, d+1)
+							}
+						case *ssa.UnOp:
+							if al, ok := x.X.(*ssa.Alloc); ok && x.Op == token.MUL {
+								whole, _ := allocStores(al)
+								for _, w := range whole {
+									walk(w, d+1)
+								}
+							}
+						}
+					}
+					walk(a, 0)
+				}
+				if carried == "" {
+					c.ok("C10-R10", key, p.relFile(call.Pos()), "the option name and value come from the current line only", "neither argument of configure is carried round the read loop")
+				} else {
+					c.bad("C10-R10", key, p.relFile(call.Pos()), fnName(g)+" hands configure a value ("+carried+") that is carried round the read loop: a line without '=' reuses the value of an earlier assignment, so what `call_tree` sets depends on the lines typed before it")
+				}
+			}
+		}
+	}
+	if n == 0 {
+		c.ok("C10-R10", "line-local:none", p.relFile(f.Pos()), "interactive does not call configure inside its read loop directly", "nothing to check")
+	}
+}
+
+// resumeInsideShortenedString (C09-R12): a scanner that cuts s[a:b] out of the string it is
+// scanning (s = s[:a] + s[b:]) and goes on from an index i resumes at or before a, the first
+// position that still holds unscanned text: where the new string and the new index are merged
+// into the loop variables, index + (the increment applied before the next s[index:]) minus a is
+// a constant <= 0.  Resuming later (a clamped first-1) starts beyond the end when the removed
+// group was the whole string, and s[index:] panics.
+func (c *Check) resumeInsideShortenedString() {
+	p := c.P
+	f := c.anchorFn("C09-R12", "internal/symbolizer", "removeMatching")
+	if f == nil {
+		return
+	}
+	n := 0
+	for _, b := range f.Blocks {
+		for _, ins := range b.Instrs {
+			cat, ok := ins.(*ssa.BinOp)
+			if !ok || cat.Op != token.ADD {
+				continue
+			}
+			x, ok1 := cat.X.(*ssa.Slice)
+			y, ok2 := cat.Y.(*ssa.Slice)
+			if !ok1 || !ok2 || x.X != y.X || x.Low != nil || x.High == nil || y.Low == nil || y.High != nil {
+				continue
+			}
+			a := x.High
+			for _, sc := range b.Succs {
+				pi := -1
+				for i, pr := range sc.Preds {
+					if pr == b {
+						pi = i
+					}
+				}
+				var strPhi *ssa.Phi
+				for _, si := range sc.Instrs {
+					if ph, ok := si.(*ssa.Phi); ok && pi >= 0 && ph.Edges[pi] == ssa.Value(cat) {
+						strPhi = ph
+					}
+				}
+				if strPhi == nil {
+					continue
+				}
+				for _, r := range *strPhi.Referrers() {
+					sl, ok := r.(*ssa.Slice)
+					if !ok || sl.X != ssa.Value(strPhi) || sl.Low == nil {
+						continue
+					}
+					// low = idxPhi + k
+					k := int64(0)
+					lo := sl.Low
+					if add, ok := lo.(*ssa.BinOp); ok && add.Op == token.ADD {
+						if kk, ok := constInt(add.Y); ok {
+							k, lo = kk, add.X
+						}
+					}
+					idxPhi, ok := lo.(*ssa.Phi)
+					if !ok || idxPhi.Block() != sc {
+						continue
+					}
+					v := idxPhi.Edges[pi]
+					n++
+					key := fmt.Sprintf("resume-index#%d", n)
+					// v == a - cst ?
+					cst, known := int64(0), false
+					if v == a {
+						known = true
+					} else if sub, ok := v.(*ssa.BinOp); ok && sub.Op == token.SUB && sub.X == a {
+						if kk, ok := constInt(sub.Y); ok {
+							cst, known = kk, true
+						}
+					} else if add, ok := v.(*ssa.BinOp); ok && add.Op == token.ADD && add.X == a {
+						if kk, ok := constInt(add.Y); ok {
+							cst, known = -kk, true
+						}
+					}
+					if known && k-cst <= 0 {
+						c.ok("C09-R12", key, p.relFile(sl.Pos()), "after cutting a group out of the name the scan resumes inside the shortened string", fmt.Sprintf("the index merged with the shortened string is (start of the removed group) - %d and %d is added before the next slice", cst, k))
+					} else {
+						c.bad("C09-R12", key, p.relFile(sl.Pos()), "removeMatching shortens the name to s[:a]+s[b:] and resumes at "+describeValue(v)+fmt.Sprintf(" + %d", k)+", which is not provably <= a: when the removed group started at 0 and was the whole name (<lambda>) the next name[index:] starts beyond the end and panics during demangling")
+					}
+				}
+			}
+		}
+	}
+	if n == 0 {
+		c.ok("C09-R12", "resume-index:none", p.relFile(f.Pos()), "removeMatching does not rebuild the string it scans", "nothing to check")
+	}
+}
